@@ -347,3 +347,29 @@ impl<F: std::io::Write> std::io::Write for Counter<F> {
         self.stream.flush()
     }
 }
+
+/// Verification hooks: thin public wrappers over private items, compiled only
+/// with `--cfg flac_codec_verif` (used by the external verification harness).
+#[cfg(flac_codec_verif)]
+#[doc(hidden)]
+pub mod verif_hooks {
+    use crate::crc::{Checksum, Crc8, Crc16};
+
+    /// CRC-8 of `bytes` as the frame-header code computes it
+    pub fn crc8(bytes: &[u8]) -> u8 {
+        bytes
+            .iter()
+            .copied()
+            .fold(Crc8::default(), |c, b| c.update(b))
+            .into()
+    }
+
+    /// CRC-16 of `bytes` as the frame-footer code computes it
+    pub fn crc16(bytes: &[u8]) -> u16 {
+        bytes
+            .iter()
+            .copied()
+            .fold(Crc16::default(), |c, b| c.update(b))
+            .into()
+    }
+}
